@@ -38,15 +38,15 @@ def check(ctx):
     rv = ast.unparse(rets[0].value) if len(rets) == 1 else None
     ctx.decide(rv is not None and isinstance(rets[0].value, ast.Name), "R-MUSTDEF/identifiers", construct, bp.where(ca),
                f"returns the template `{rv}`", "create_answer does not return a single template variable", key="return", nontrivial=False)
-    for f in ("hop_by_hop", "end_to_end"):
-        want = f"{rv}.header.{f} = {p0}.header.{f}"
-        ok = must_pass(cfg, lambda n: n.kind == "stmt" and ast.unparse(n.ast) == want)
-        others = [ast.unparse(n.ast) for n in cfg.nodes.values() if n.kind == "stmt" and isinstance(n.ast, ast.Assign)
-                  and ast.unparse(n.ast.targets[0]) == f"{rv}.header.{f}" and ast.unparse(n.ast) != want]
-        ctx.decide(ok and not others, "R-MUSTDEF/identifiers", construct, bp.where(ca),
-                   f"answer.header.{f} <- request.header.{f} on every path",
-                   f"the answer's {f} is not copied from the request's {f} on every path to the return"
-                   + (f" (other stores: {others})" if others else ""), key=f"id:{f}")
+    from ..astutil import field_copy_verdict
+    for f, g in (("hop_by_hop", "end_to_end"), ("end_to_end", "hop_by_hop")):
+        v, detail = field_copy_verdict(cfg, f"{rv}.header.{f}", f"{p0}.header.{f}",
+                                       [f"{p0}.header.{g}", f"{rv}.header.{g}", f"{rv}.header.{f}"])
+        if v == "UNDECIDED":
+            ctx.undecided("R-MUSTDEF/identifiers", construct, bp.where(ca), detail, key=f"id:{f}")
+        else:
+            ctx.decide(v == "HOLDS", "R-MUSTDEF/identifiers", construct, bp.where(ca), detail,
+                       f"the answer's {f} is not the request's {f}: {detail}", key=f"id:{f}")
 
     ctx.clause = "2-command-template-table"
     got = {}
